@@ -173,6 +173,31 @@ for i in range(ncomp):
                 fail("C16:formula-object-density", "%s gives %r (match %r); the same compound at %s gives %r (match %r)"
                      % (t2, a, ma, "the keyword's density" if dkw else "the object's own density", b, mb), call=t2)
 
+# ---------------------------------------------------------------- the same through a private table
+# table=T reaches the parser: a compound given as a string is read with T's atoms, the labile hydrogen replaced is T's H[1].
+# With an unmodified private table the results are those of the public table.
+try:
+    from periodictable import core as _core, mass as _mass, density as _density
+    _T = _core.PeriodicTable("verif_c16")
+    _mass.init(_T); _density.init(_T); nsf.init(_T)
+    stats["private_table"] = 0
+    for comp in ("C3H4H[1]NO@1.29n", "C2H4(NH[1]2)2@0.9", "CaSO4(H[1]2O)2@2.32", "H[1]2O@1"):
+        for vf, f_ in ((1.0, 0.7), (0.4, 0.25)):
+            stats["private_table"] += 1
+            a = attempt(lambda: nsf.D2O_sld(comp, volume_fraction=vf, D2O_fraction=f_, table=_T))
+            b = attempt(lambda: nsf.D2O_sld(comp, volume_fraction=vf, D2O_fraction=f_))
+            ma = attempt(lambda: nsf.D2O_match(comp, table=_T))
+            mb = attempt(lambda: nsf.D2O_match(comp))
+            t4 = "D2O_sld(%r, volume_fraction=%r, D2O_fraction=%r, table=T)" % (comp, vf, f_)
+            bad = any(isinstance(x, BaseException) for x in (a, b, ma, mb))
+            if not bad:
+                bad = not close(a[0], b[0], abs(b[0]) + 1) or not close(a[1], b[1], max(abs(b[1]), 1e-300)) or not close(ma[0], mb[0], 1 + abs(mb[0]), 1e-10)
+            if bad:
+                fail("C16:private-table", "%s = %r (match %r); with the public table %r (match %r); T is a fresh private table with the "
+                     "same data" % (t4, a, ma, b, mb), call=t4)
+except Exception as e:  # noqa
+    fail("C16:private-table", "D2O functions with a private table raised %s: %s" % (type(e).__name__, e), call="private table")
+
 # ---------------------------------------------------------------- fasta molecules and sequences
 def molecule_case(name, M, vf, f):
     lab = M.labile_formula
